@@ -95,10 +95,32 @@ func (d docKeySpec) raw() M {
 
 type svcSpec struct{ id, typ, uri string }
 
+// Callers hold on to their service values: every service of a run shares one Properties map,
+// services with routing keys alternate with services without, and the value built for a
+// service id is handed to the client again whenever that id comes back.
+var sharedSvcProps = map[string]interface{}{"note": "shared"}
+var svcValues = map[string]*docdid.Service{}
+
+func (s svcSpec) routed() bool { return len(s.id)%2 == 0 }
+
 func (s svcSpec) lib() *docdid.Service {
-	return &docdid.Service{ID: s.id, Type: s.typ, ServiceEndpoint: endpoint.NewDIDCommV1Endpoint(s.uri)}
+	if v, ok := svcValues[s.id+s.typ+s.uri]; ok {
+		return v
+	}
+	v := &docdid.Service{ID: s.id, Type: s.typ, ServiceEndpoint: endpoint.NewDIDCommV1Endpoint(s.uri), Properties: sharedSvcProps}
+	if s.routed() {
+		v.RoutingKeys = []string{"did:example:router#" + s.id}
+	}
+	svcValues[s.id+s.typ+s.uri] = v
+	return v
 }
-func (s svcSpec) raw() M { return M{"id": s.id, "type": s.typ, "serviceEndpoint": s.uri} }
+func (s svcSpec) raw() M {
+	m := M{"id": s.id, "type": s.typ, "serviceEndpoint": s.uri, "note": "shared"}
+	if s.routed() {
+		m["routingKeys"] = A{"did:example:router#" + s.id}
+	}
+	return m
+}
 
 func randDocKeys(r *rand.Rand, prefix string, n int) []docKeySpec {
 	var out []docKeySpec
@@ -185,6 +207,10 @@ func genC08(seed int64, tier string) []caseOut {
 	return out
 }
 
+// the requests of the most recent lifecycle (C04 links them with the parser's accessors)
+var lastLifeSteps []lifeStep
+var lastLifeCfg protocol.Protocol
+
 func lifecycleCase(r *rand.Rand, idx int) caseOut {
 	code := uint(18)
 	if idx%5 == 4 {
@@ -192,6 +218,13 @@ func lifecycleCase(r *rand.Rand, idx int) caseOut {
 	}
 	cfg := baseProtocol(r)
 	cfg.MultihashAlgorithms = []uint{code}
+	// updCode / recCode: the algorithm the current update / recovery commitment was made with;
+	// codeNow: the algorithm the client is configured with (may change during the DID's life)
+	updCode, recCode, codeNow := code, code, code
+	switchAlg := idx%7 == 3 && idx%2 == 0
+	if switchAlg {
+		cfg.MultihashAlgorithms = []uint{code, 37 - code}
+	}
 	cfg.MaxOperationHashLength = 200
 	cfg.MaxOperationTimeDelta = 5000
 	opKind := keyKinds[idx%len(keyKinds)]
@@ -286,7 +319,13 @@ func lifecycleCase(r *rand.Rand, idx int) caseOut {
 			suffix = modelHash(sd, uint64(code))
 		}
 	}
-	did := "did:ns:" + suffix
+	// namespaces with further segments (label, domain, canonical reference) are DIDs the library itself emits
+	ns := []string{"did:ns", "did:ns", "did:sidetree:test", "did:orb:uAAA", "did:ns:a:b"}[idx%5]
+	did := ns + ":" + suffix
+	if switchAlg && useClient {
+		codeNow = 37 - code // from now on the client hashes with the other configured algorithm
+		label += ",client-algorithm-switched"
+	}
 	// ---- updates, recover, updates, deactivate
 	doUpdates := func(count int) {
 		for u := 0; u < count; u++ {
@@ -361,7 +400,8 @@ func lifecycleCase(r *rand.Rand, idx int) caseOut {
 			var from, until int64
 			if useClient {
 				opts := []update.Option{update.WithSigner(updKey.signer()), update.WithNextUpdatePublicKey(next.public()),
-					update.WithOperationCommitment(commitmentOf(updKey.jwk(), uint64(code))), update.WithMultiHashAlgorithm(code)}
+					update.WithOperationCommitment(commitmentOf(updKey.jwk(), uint64(updCode))), update.WithMultiHashAlgorithm(codeNow)}
+				updCode = codeNow
 				for _, k := range addK {
 					opts = append(opts, update.WithAddPublicKey(k.lib()))
 				}
@@ -454,8 +494,9 @@ func lifecycleCase(r *rand.Rand, idx int) caseOut {
 		origin = nil
 		if useClient {
 			opts := []recovery.Option{recovery.WithSigner(recKey.signer()), recovery.WithNextRecoveryPublicKey(nextRec.public()),
-				recovery.WithNextUpdatePublicKey(nextUpd.public()), recovery.WithOperationCommitment(commitmentOf(recKey.jwk(), uint64(code))),
-				recovery.WithMultiHashAlgorithm(code), recovery.WithService(s.lib())}
+				recovery.WithNextUpdatePublicKey(nextUpd.public()), recovery.WithOperationCommitment(commitmentOf(recKey.jwk(), uint64(recCode))),
+				recovery.WithMultiHashAlgorithm(codeNow), recovery.WithService(s.lib())}
+			updCode, recCode = codeNow, codeNow
 			for _, k := range keys {
 				opts = append(opts, recovery.WithPublicKey(k.lib()))
 			}
@@ -490,7 +531,7 @@ func lifecycleCase(r *rand.Rand, idx int) caseOut {
 		t += uint64(1 + r.Intn(100))
 		if useClient {
 			before := len(captured)
-			err := cl.DeactivateDID(did, deactivate.WithSigner(recKey.signer()), deactivate.WithOperationCommitment(commitmentOf(recKey.jwk(), uint64(code))))
+			err := cl.DeactivateDID(did, deactivate.WithSigner(recKey.signer()), deactivate.WithOperationCommitment(commitmentOf(recKey.jwk(), uint64(recCode))))
 			if err != nil || len(captured) == before {
 				steps = append(steps, lifeStep{"deactivate", nil, fmt.Errorf("%v", err)})
 			} else {
@@ -520,10 +561,13 @@ func lifecycleCase(r *rand.Rand, idx int) caseOut {
 			why = append(why, fmt.Sprintf("step %d (%s): builder refused valid input: %v", i, st.typ, st.refused))
 			continue
 		}
-		mop, perr := parser.ParseOperation("did:ns", st.bytes, false)
+		mop, perr := parser.ParseOperation(ns, st.bytes, false)
 		if perr != nil {
 			allParsed = false
 			why = append(why, fmt.Sprintf("step %d (%s): parser refused: %v", i, st.typ, perr))
+		} else if mop.UniqueSuffix != suffix || mop.ID != did {
+			allParsed = false // the request addresses another DID than the one the lifecycle is about
+			why = append(why, fmt.Sprintf("step %d (%s): request is for %s, the lifecycle's DID is %s", i, st.typ, mop.ID, did))
 		}
 		hs := &histStep{Type: st.typ, Time: metas[i].t, Num: uint64(i), Ver: 0, Canon: fmt.Sprintf("ref%d", i), Bytes: st.bytes, Label: "built", Cfg: cfg, ByteLevel: true}
 		hs.V = viewFromBytes(st.typ, st.bytes)
@@ -560,11 +604,12 @@ func lifecycleCase(r *rand.Rand, idx int) caseOut {
 			}
 		}
 	}
+	lastLifeSteps, lastLifeCfg = steps, cfg
 	expDocJSON := exp.doc()
 	if deactivate_ {
 		expDocJSON = M{}
 	}
-	expUpd, expRec := commitmentOf(updKey.jwk(), uint64(code)), commitmentOf(recKey.jwk(), uint64(code))
+	expUpd, expRec := commitmentOf(updKey.jwk(), uint64(updCode)), commitmentOf(recKey.jwk(), uint64(recCode))
 	if deactivate_ {
 		expUpd, expRec = "", ""
 	}
